@@ -92,3 +92,16 @@ def closure_callers():
     if total == 0:
         return False, "no closure block evaluation found in src/stdlib (anchor lost)"
     return True, "%d closure block evaluations, all through closure::Runner::new (%s)" % (total, ", ".join(sorted(files)))
+
+
+@scan("mod_delegates")
+def mod_delegates():
+    from . import extract as X
+    try:
+        got = X.find_fn(os.path.join(C.REPO, "src/stdlib/mod_func.rs"), None, "r#mod")
+    except Exception as ex:
+        return False, "r#mod not found: %s" % ex
+    body = re.sub(r"\s+", "", got["body"])
+    if body != "letresult=value.try_rem(modulus)?;Ok(result)":
+        return False, "stdlib mod no longer just delegates to try_rem: %s" % got["body"].strip()[:200]
+    return True, "mod(value, modulus) == value.try_rem(modulus)? (body sha %s)" % got["body_sha"][:12]
